@@ -149,5 +149,5 @@ def _worker(ctx, arg):
 
 
 def run(ctx):
-    per = 100 if ctx.tier == "quick" else 1500
+    per = 350 if ctx.tier == "quick" else 3000
     ctx.parallel(_worker, [(k, per) for k in range(core.NPROC)])
